@@ -12,6 +12,7 @@
 #include <atomic>
 #include <cassert>
 #include <cstdint>
+#include <cstring>
 #include <memory>
 
 namespace xenium {
@@ -131,9 +132,14 @@ struct seqlock {
   void update(Func func);
 
 private:
-  using storage_t = typename std::aligned_storage<sizeof(T), alignof(T)>::type;
   using sequence_t = uintptr_t;
   using copy_t = uintptr_t;
+
+  // The data is copied word by word using atomic operations. Therefore the storage has to consist of
+  // a whole number of properly aligned words, even if the size of T is not a multiple of the word size.
+  static constexpr std::size_t words_per_slot = (sizeof(T) + sizeof(copy_t) - 1) / sizeof(copy_t);
+  using storage_t = typename std::aligned_storage<words_per_slot * sizeof(copy_t),
+                                                  (alignof(T) > alignof(copy_t) ? alignof(T) : alignof(copy_t))>::type;
 
   [[nodiscard]] bool is_write_pending(sequence_t seq) const { return (seq & 1) != 0; }
 
@@ -228,12 +234,13 @@ void seqlock<T, Policies...>::release_lock(sequence_t seq) {
 
 template <class T, class... Policies>
 void seqlock<T, Policies...>::read_data(T& dest, const storage_t& src) const {
-  auto* pdest = reinterpret_cast<copy_t*>(&dest);
-  auto* pend = pdest + (sizeof(T) / sizeof(copy_t));
+  copy_t buffer[words_per_slot];
   const auto* psrc = reinterpret_cast<const std::atomic<copy_t>*>(&src);
-  for (; pdest != pend; ++psrc, ++pdest) {
-    *pdest = psrc->load(std::memory_order_relaxed);
+  for (std::size_t i = 0; i < words_per_slot; ++i) {
+    buffer[i] = psrc[i].load(std::memory_order_relaxed);
   }
+  // copy all bytes of T (the size of T does not have to be a multiple of the word size)
+  std::memcpy(static_cast<void*>(&dest), buffer, sizeof(T));
   // (6) - this acquire-fence synchronizes-with the release-fence (7)
   XENIUM_THREAD_FENCE(std::memory_order_acquire);
 
@@ -250,11 +257,11 @@ void seqlock<T, Policies...>::store_data(const T& src, storage_t& dest) {
   // (7) - this release-fence synchronizes-with the acquire-fence (6)
   XENIUM_THREAD_FENCE(std::memory_order_release);
 
-  const auto* psrc = reinterpret_cast<const copy_t*>(&src);
-  const auto* pend = psrc + (sizeof(T) / sizeof(copy_t));
+  copy_t buffer[words_per_slot] = {};
+  std::memcpy(buffer, static_cast<const void*>(&src), sizeof(T));
   auto* pdest = reinterpret_cast<std::atomic<copy_t>*>(&dest);
-  for (; psrc != pend; ++psrc, ++pdest) {
-    pdest->store(*psrc, std::memory_order_relaxed);
+  for (std::size_t i = 0; i < words_per_slot; ++i) {
+    pdest[i].store(buffer[i], std::memory_order_relaxed);
   }
 }
 
